@@ -72,15 +72,30 @@ type c08StepObs struct {
 
 var c08ReadFins = []string{"count", "find", "first", "take", "last", "pluck", "scan"}
 
-func c08GenSeq(rng *rand.Rand, w *wWorld, flavour string, soft bool) []c08SeqOp {
+func c08GenSeq(rng *rand.Rand, w *wWorld, flavour string, soft bool, modelKey int) []c08SeqOp {
 	n := 2 + rng.Intn(4)
 	var ops []c08SeqOp
 	cfg := chainGenCfg{exGenCfg: exGenCfg{table: tableOf(soft)}, soft: soft, allowEmpty: true}
 	condFree := flavour == "C09" && rng.Intn(3) > 0 // C09: mostly statements that never get a condition
 	session := rng.Intn(3) == 0
 	loaded := false
+	reads := 0
+	if flavour == "C08" {
+		// the usual shape of a reused statement: conditions first, then several finishers (count-then-read pagination …)
+		for i, m := 0, rng.Intn(3); i < m; i++ {
+			f := genForm(rng, w, 1, cfg)
+			op := []string{"where", "where", "not", "or"}[rng.Intn(4)]
+			if op == "not" && f.notMixed() {
+				op = "where"
+			}
+			ops = append(ops, c08SeqOp{Kind: "cond", Op: op, form: f, Desc: op + "(" + f.GoDesc + ")"})
+		}
+	}
 	for i := 0; i < n; i++ {
 		k := rng.Intn(20)
+		if flavour == "C08" && k >= 15 && reads < 2 {
+			k = 9 + rng.Intn(6) // writes mostly come after the reads (a write after a read on one statement usually ends in a database error)
+		}
 		switch {
 		case k < 5:
 			var f *wForm
@@ -118,12 +133,14 @@ func c08GenSeq(rng *rand.Rand, w *wWorld, flavour string, soft bool) []c08SeqOp 
 			ops = append(ops, c08SeqOp{Kind: "session", Desc: "Session(&gorm.Session{})"})
 		case k < 15:
 			f := c08ReadFins[rng.Intn(len(c08ReadFins))]
-			if f == "scan" && loaded {
+			if f == "scan" && (loaded || modelKey != 0) {
+				// (a Scan on a statement without Dest also takes the keyed Model value as its Dest)
 				// Scan (through Rows) keeps the statement's Dest: after First/Take/Last that is the LOADED record, whose key
 				// becomes a condition of the statement — a value with a primary key, outside the sequences judged here
 				f = "find"
 			}
 			loaded = loaded || f == "first" || f == "take" || f == "last"
+			reads++
 			ops = append(ops, c08SeqOp{Kind: "fin", Fin: f, Desc: f})
 		case k < 17:
 			ops = append(ops, c08SeqOp{Kind: "fin", Fin: "update", Desc: "Update(b, 77)"})
@@ -143,7 +160,7 @@ func c08GenSeq(rng *rand.Rand, w *wWorld, flavour string, soft bool) []c08SeqOp 
 		}
 	}
 	// always end in a finisher; C09 in a write finisher
-	last := c08SeqOp{Kind: "fin", Fin: []string{"find", "count", "update", "delete"}[rng.Intn(4)]}
+	last := c08SeqOp{Kind: "fin", Fin: []string{"find", "count", "pluck", "find", "update", "delete"}[rng.Intn(6)]}
 	if flavour == "C09" {
 		last.Fin = []string{"update", "delete"}[rng.Intn(2)]
 	}
@@ -188,6 +205,8 @@ func c08SeqJSON(w *wWorld, ops []c08SeqOp, soft bool, modelKey int) (filter inte
 			vk := []interface{}{}
 			if o.VKey != 0 {
 				vk = append(vk, c08KeyAtom(w, o.VKey).json())
+			} else if o.Same && modelKey != 0 {
+				vk = append(vk, c08KeyAtom(w, modelKey).json()) // the deleted value IS the Model value
 			}
 			out = append(out, []interface{}{"fin", o.Fin, vk, o.Same})
 		}
@@ -412,7 +431,7 @@ func c08SeqPrepare(seed int64, flavour string) *c08SeqJob {
 		c.ModelKey = 1 + rng.Intn(3)
 	}
 	c.TxMode = []string{"default", "default", "skip", "prepare", "begin"}[rng.Intn(5)]
-	ops := c08GenSeq(rng, w, flavour, soft)
+	ops := c08GenSeq(rng, w, flavour, soft, c.ModelKey)
 	// the non-session ops, aligned with the observations and the model's answers
 	var steps []c08SeqOp
 	for _, o := range ops {
